@@ -1,5 +1,6 @@
 (* C09 proofs. *)
 From Slsk Require Import Base.Tac.
+From Coq Require DecimalN DecimalFacts.
 From Slsk Require Import C09.Model.
 Open Scope N_scope.
 
@@ -57,3 +58,304 @@ Proof. exists [Prepare 0; Prepare 1; Create 0; Create 1]. vm_compute. reflexivit
 Lemma distinct_active_serial_example :
   distinct_paths (d_paths (drun default_chain DL0 rem2 (mkD FS0 []) [Prepare 0; Create 0; Prepare 1; Create 1])) = true.
 Proof. vm_compute. reflexivity. Qed.
+
+(* ---------------------------------------------------------------- inside (partial) *)
+Lemma str_eqb_eq : forall a b, str_eqb a b = true <-> a = b.
+Proof.
+  induction a; destruct b; cbn; split; intros H; try discriminate; try reflexivity.
+  - apply andb_prop in H. destruct H as (H1 & H2). apply N.eqb_eq in H1. apply IHa in H2. congruence.
+  - inv H. rewrite N.eqb_refl. cbn. apply IHa. reflexivity.
+Qed.
+Lemma str_eqb_neq : forall a b, a <> b -> str_eqb a b = false.
+Proof. intros. destruct (str_eqb a b) eqn:E; [apply str_eqb_eq in E; congruence|reflexivity]. Qed.
+
+(* ---- split_remote_path: parts are non-empty and contain no separator *)
+Lemma split_at_seps_nosep : forall s cur, nosep cur -> forall c, In c (split_at_seps cur s) -> nosep c.
+Proof.
+  induction s; intros cur Hc c Hin; cbn in Hin.
+  - destruct Hin as [<-|[]]. intros x Hx. apply in_rev in Hx. apply Hc. assumption.
+  - destruct (is_sep a) eqn:E.
+    + destruct Hin as [<-|Hin].
+      * intros x Hx. apply in_rev in Hx. apply Hc. assumption.
+      * eapply IHs; [|eassumption]. intros x [].
+    + eapply IHs; [|eassumption]. intros x [<-|Hx]; [assumption|apply Hc; assumption].
+Qed.
+
+Lemma split_parts : forall s c, In c (split_remote_path s) -> c <> [] /\ nosep c.
+Proof.
+  intros s c H. unfold split_remote_path in H. apply filter_In in H. destruct H as (H1 & H2). split.
+  - destruct c; [discriminate|discriminate].
+  - eapply split_at_seps_nosep; [|eassumption]. intros x [].
+Qed.
+
+(* ---- normalisation of plain names *)
+Lemma regular_tests : forall c, regular_name c -> str_eqb c [] = false /\ str_eqb c dot = false /\ str_eqb c dotdot = false.
+Proof. intros c (H1 & H2 & H3 & _). repeat split; apply str_eqb_neq; assumption. Qed.
+
+Lemma norm_from_regular : forall l acc, Forall regular_name l -> norm_from acc l = acc ++ l.
+Proof.
+  induction l; intros acc H; cbn.
+  - rewrite app_nil_r. reflexivity.
+  - inv H. destruct (regular_tests a H2) as (E1 & E2 & E3). rewrite E1, E2, E3. cbn. rewrite IHl by assumption.
+    rewrite <- app_assoc. reflexivity.
+Qed.
+
+Lemma inside_regular : forall dl ds f, dl_ok dl -> Forall regular_name ds -> regular_name f -> inside dl ((dl ++ ds) ++ [f]).
+Proof.
+  intros dl ds f H1 H2 H3. exists (ds ++ [f]). split; [destruct ds; discriminate|].
+  unfold norm. rewrite norm_from_regular; [cbn; rewrite <- app_assoc; reflexivity|].
+  apply Forall_app. split; [apply Forall_app; split; assumption|]. constructor; [assumption|constructor].
+Qed.
+
+(* ---- splitext partitions the name *)
+Lemma split_last_dot_app : forall s a b, split_last_dot s = Some (a, b) -> a ++ b = s.
+Proof.
+  induction s; intros a0 b H; cbn in H; [discriminate|].
+  destruct (split_last_dot s) as [[x y]|] eqn:E.
+  - inv H. cbn. f_equal. apply IHs. reflexivity.
+  - destruct (N.eqb a DOT); [|discriminate]. inv H. reflexivity.
+Qed.
+Lemma splitext_app : forall f stem ext, splitext f = (stem, ext) -> stem ++ ext = f.
+Proof.
+  intros f stem ext H. unfold splitext in H. destruct (split_last_dot f) as [[a b]|] eqn:E.
+  - destruct (all_dots a); inv H; [apply app_nil_r|eapply split_last_dot_app; eassumption].
+  - inv H. apply app_nil_r.
+Qed.
+
+Lemma digits_nosep : forall u c, In c (digits_of_uint u) -> is_sep c = false.
+Proof. induction u; cbn; intros c H; try tauto; destruct H as [<-|H]; try reflexivity; apply IHu; assumption. Qed.
+
+Lemma number_name_regular : forall f stem ext k, nosep f -> splitext f = (stem, ext) -> regular_name (number_name stem ext k).
+Proof.
+  intros f stem ext k Hn Hs. apply splitext_app in Hs. unfold number_name.
+  assert (Hin : In SP (stem ++ [SP; LP] ++ dec k ++ [RP] ++ ext)).
+  { apply in_or_app. right. left. reflexivity. }
+  repeat split.
+  - intros E. rewrite E in Hin. destruct Hin.
+  - intros E. rewrite E in Hin. cbn in Hin. destruct Hin as [H|[]]. discriminate.
+  - intros E. rewrite E in Hin. cbn in Hin. destruct Hin as [H|[H|[]]]; discriminate.
+  - intros c Hc. apply in_app_or in Hc. destruct Hc as [Hc|Hc].
+    + apply Hn. rewrite <- Hs. apply in_or_app. left. assumption.
+    + cbn in Hc. destruct Hc as [<-|[<-|Hc]]; try reflexivity. apply in_app_or in Hc. destruct Hc as [Hc|Hc].
+      * unfold dec in Hc. eapply digits_nosep. eassumption.
+      * cbn in Hc. destruct Hc as [<-|Hc]; [reflexivity|]. apply Hn. rewrite <- Hs. apply in_or_app. right. assumption.
+Qed.
+
+(* ---- resolution of a path with one more component *)
+Lemma resolve_snoc : forall fs p cur c,
+  resolve fs cur (p ++ [c]) = match resolve fs cur p with Some q => resolve fs q [c] | None => None end.
+Proof.
+  induction p; intros cur c; cbn [app resolve].
+  - reflexivity.
+  - destruct (lookup fs cur) as [[|]|]; try reflexivity.
+    destruct (str_eqb a [] || str_eqb a dot); [apply IHp|]. destruct (str_eqb a dotdot); apply IHp.
+Qed.
+
+Lemma pexists_listdir : forall fs p f, pexists fs (p ++ [f]) = true -> exists names, listdir fs p = Some names.
+Proof.
+  intros fs p f H. unfold pexists in H. rewrite resolve_snoc in H. unfold listdir.
+  destruct (resolve fs [] p) as [q|]; [|discriminate]. cbn [resolve] in H.
+  destruct (lookup fs q) as [[|]|]; try discriminate. eexists. reflexivity.
+Qed.
+
+(* ---- the chain keeps the result below dl *)
+Definition good (dl : path) (seen : bool) (p : path) (f : str) : Prop :=
+  (exists ds, p = dl ++ ds /\ Forall regular_name ds) /\ nosep f /\ (seen = true -> regular_name f).
+
+Lemma benign_last : forall parts, benign parts -> (forall c, In c parts -> c <> [] /\ nosep c) ->
+  exists l r, rev parts = l :: r /\ regular_name l /\ match r with c :: _ => regular_name c | [] => True end.
+Proof.
+  intros parts Hb Hp. unfold benign in Hb. destruct (rev parts) as [|l r] eqn:E; [destruct Hb|].
+  exists l, r. split; [reflexivity|]. destruct Hb as (B1 & B2 & B3).
+  assert (Hl : In l parts) by (apply in_rev; rewrite E; left; reflexivity).
+  destruct (Hp l Hl) as (N1 & N2). split; [repeat split; assumption|].
+  destruct r as [|c r']; [exact I|]. destruct B3 as (B3 & B4).
+  assert (Hc : In c parts) by (apply in_rev; rewrite E; right; left; reflexivity).
+  destruct (Hp c Hc) as (M1 & M2). repeat split; assumption.
+Qed.
+
+Lemma apply_good : forall fs remote dl st seen p f, benign (split_remote_path remote) -> good dl seen p f ->
+  exists p' f', apply_strat fs remote st p f = Some (p', f') /\
+    good dl (orb seen (match st with Default => true | _ => false end)) p' f'.
+Proof.
+  intros fs remote dl st seen p f Hb ((ds & -> & Hds) & Hn & Hr).
+  destruct (benign_last _ Hb (split_parts remote)) as (l & r & E & Rl & Rc).
+  destruct st; unfold apply_strat; rewrite ?E.
+  - exists (dl ++ ds), l. split; [reflexivity|]. rewrite orb_true_r. split; [exists ds; auto|]. split; [apply Rl|intros _; exact Rl].
+  - rewrite orb_false_r. destruct r as [|c r'].
+    + exists (dl ++ ds), f. split; [reflexivity|]. split; [exists ds; auto | split; assumption].
+    + destruct (starts_atat c || is_drive c).
+      * exists (dl ++ ds), f. split; [reflexivity|]. split; [exists ds; auto | split; assumption].
+      * exists ((dl ++ ds) ++ [c]), f. split; [reflexivity|]. split; [|split; assumption].
+        exists (ds ++ [c]). split; [apply app_assoc_reverse|]. apply Forall_app. split; [assumption|constructor; [assumption|constructor]].
+  - rewrite orb_false_r. destruct (pexists fs ((dl ++ ds) ++ [f])) eqn:Ex.
+    + destruct (splitext f) as [stem ext] eqn:Es. destruct (pexists_listdir _ _ _ Ex) as (names & ->).
+      eexists _, _. split; [reflexivity|]. pose proof (number_name_regular f stem ext (next_index (indices stem ext names)) Hn Es) as R.
+      split; [exists ds; auto|]. split; [apply R|intros _; exact R].
+    + exists (dl ++ ds), f. split; [reflexivity|]. split; [exists ds; auto | split; assumption].
+Qed.
+
+Lemma chain_good : forall fs remote dl ch seen p f, benign (split_remote_path remote) -> good dl seen p f ->
+  exists p' f', chain_from fs remote ch p f = Some (p', f') /\
+    good dl (orb seen (existsb (fun st => match st with Default => true | _ => false end) ch)) p' f'.
+Proof.
+  induction ch; intros seen p f Hb Hg; cbn [chain_from existsb].
+  - exists p, f. rewrite orb_false_r. split; [reflexivity|assumption].
+  - destruct (apply_good fs remote dl a seen p f Hb Hg) as (p1 & f1 & E1 & G1). rewrite E1.
+    destruct (IHch _ p1 f1 Hb G1) as (p2 & f2 & E2 & G2). exists p2, f2. split; [assumption|].
+    rewrite orb_assoc. exact G2.
+Qed.
+
+Lemma inside_partial : forall ch fs remote dl, dl_ok dl -> In Default ch -> benign (split_remote_path remote) ->
+  exists p f, chain fs remote ch dl = Some (p, f) /\ inside dl (p ++ [f]) /\ regular_name f.
+Proof.
+  intros ch fs remote dl Hdl Hin Hb. unfold chain.
+  assert (G0 : good dl false dl []).
+  { split; [exists []; split; [symmetry; apply app_nil_r|constructor]|]. split; [intros c []|discriminate]. }
+  destruct (chain_good fs remote dl ch false dl [] Hb G0) as (p & f & E & ((ds & -> & Hds) & Hn & Hr)).
+  exists (dl ++ ds), f. split; [assumption|].
+  assert (Hs : existsb (fun st => match st with Default => true | _ => false end) ch = true).
+  { apply existsb_exists. exists Default. split; [assumption|reflexivity]. }
+  rewrite Hs in Hr. cbn in Hr. specialize (Hr eq_refl). split; [apply inside_regular; assumption|assumption].
+Qed.
+
+(* ---------------------------------------------------------------- fresh *)
+Lemma path_eqb_eq : forall a b, path_eqb a b = true <-> a = b.
+Proof.
+  induction a; destruct b; cbn; split; intros H; try discriminate; try reflexivity.
+  - apply andb_prop in H. destruct H as (H1 & H2). apply str_eqb_eq in H1. apply IHa in H2. congruence.
+  - inv H. apply andb_true_intro. split; [apply str_eqb_eq; reflexivity|apply IHa; reflexivity].
+Qed.
+
+Lemma lookup_children : forall fs q n k, lookup fs (q ++ [n]) = Some k -> In n (children fs q).
+Proof.
+  induction fs as [|[p0 k0] r IH]; intros q n k H.
+  - destruct q; cbn in H; discriminate.
+  - assert (Hl : lookup ((p0, k0) :: r) (q ++ [n]) = if path_eqb p0 (q ++ [n]) then Some k0 else lookup r (q ++ [n])).
+    { destruct q; reflexivity. }
+    rewrite Hl in H. cbn [children].
+    destruct (path_eqb p0 (q ++ [n])) eqn:E.
+    + apply path_eqb_eq in E. subst p0. rewrite rev_app_distr. cbn [rev app]. rewrite rev_involutive.
+      assert (Hq : path_eqb q q = true) by (apply path_eqb_eq; reflexivity). rewrite Hq. left. reflexivity.
+    + specialize (IH _ _ _ H). destruct (rev p0) as [|n0 rq]; [assumption|]. destruct (path_eqb (rev rq) q); [right|]; assumption.
+Qed.
+
+Lemma strip_prefix_app : forall a b, strip_prefix a (a ++ b) = Some b.
+Proof. induction a; intros b; cbn; [destruct b; reflexivity|]. rewrite N.eqb_refl. apply IHa. Qed.
+
+Lemma digits_are_digits : forall u c, In c (digits_of_uint u) -> is_digit c = true.
+Proof. induction u; cbn; intros c H; try tauto; destruct H as [<-|H]; try reflexivity; apply IHu; assumption. Qed.
+
+Lemma take_digits_app : forall d t, (forall c, In c d -> is_digit c = true) ->
+  match t with [] => True | c :: _ => is_digit c = false end -> take_digits (d ++ t) = (d, t).
+Proof.
+  induction d; intros t Hd Ht; cbn [app].
+  - destruct t; cbn; [reflexivity|]. rewrite Ht. reflexivity.
+  - cbn [take_digits]. rewrite (Hd a) by (left; reflexivity). rewrite IHd; [reflexivity| |assumption].
+    intros c Hc. apply Hd. right. assumption.
+Qed.
+
+Lemma uint_roundtrip : forall u, uint_of_digits (digits_of_uint u) = u.
+Proof. induction u; cbn; try reflexivity; rewrite IHu; reflexivity. Qed.
+
+Lemma int_dec : forall k, int_of_digits (dec k) = k.
+Proof. intros. unfold int_of_digits, dec. rewrite uint_roundtrip. apply DecimalN.Unsigned.of_to. Qed.
+
+Lemma dec_nonempty : forall k, dec k <> [].
+Proof.
+  intros k E. pose proof (int_dec k) as H. rewrite E in H. cbn in H. subst k. vm_compute in E. discriminate.
+Qed.
+
+Lemma match_index_number_name : forall stem ext k, match_index stem ext (number_name stem ext k) = Some k.
+Proof.
+  intros. unfold match_index, number_name.
+  replace (stem ++ [SP; LP] ++ dec k ++ [RP] ++ ext) with ((stem ++ [SP; LP]) ++ (dec k ++ RP :: ext)) by (rewrite <- app_assoc; reflexivity).
+  rewrite strip_prefix_app. rewrite take_digits_app.
+  - destruct (dec k) eqn:E; [exfalso; eapply dec_nonempty; eassumption|]. rewrite <- E.
+    replace (RP :: ext) with ((RP :: ext) ++ []) at 2 by apply app_nil_r. rewrite strip_prefix_app. rewrite int_dec. reflexivity.
+  - intros c Hc. eapply digits_are_digits. exact Hc.
+  - reflexivity.
+Qed.
+
+Lemma indices_In : forall stem ext names n k, In n names -> match_index stem ext n = Some k -> In k (indices stem ext names).
+Proof.
+  induction names; intros n k Hin Hm; [destruct Hin|]. cbn [indices]. destruct Hin as [->|Hin].
+  - rewrite Hm. left. reflexivity.
+  - specialize (IHnames _ _ Hin Hm). destruct (match_index stem ext a); [right|]; assumption.
+Qed.
+
+Lemma memn_In : forall x l, memn x l = true <-> In x l.
+Proof. intros. unfold memn. rewrite existsb_exists. split.
+  - intros (y & Hy & E). apply N.eqb_eq in E. subst. assumption.
+  - intros. exists x. split; [assumption|apply N.eqb_refl]. Qed.
+
+Lemma filter_ge_lt : forall l k, In k l ->
+  (length (filter (fun x => N.leb (k + 1) x) l) < length (filter (fun x => N.leb k x) l))%nat.
+Proof.
+  induction l; intros k Hin; [destruct Hin|]. cbn [filter].
+  assert (Hmono : forall l', (length (filter (fun x => N.leb (k + 1) x) l') <= length (filter (fun x => N.leb k x) l'))%nat).
+  { induction l'; cbn [filter]; [lia|]. destruct (N.leb_spec (k + 1) a0); destruct (N.leb_spec k a0); cbn [length]; lia. }
+  destruct Hin as [->|Hin].
+  - destruct (N.leb_spec (k + 1) k); [lia|]. destruct (N.leb_spec k k); [|lia]. cbn [length]. specialize (Hmono l). lia.
+  - specialize (IHl k Hin). destruct (N.leb_spec (k + 1) a); destruct (N.leb_spec k a); cbn [length]; lia.
+Qed.
+
+Lemma gap_from_free : forall fuel k l, (length (filter (fun x => N.leb k x) l) < fuel)%nat -> memn (gap_from fuel k l) l = false.
+Proof.
+  induction fuel; intros k l H; [lia|]. cbn [gap_from]. destruct (memn k l) eqn:E; [|assumption].
+  apply IHfuel. apply memn_In in E. pose proof (filter_ge_lt l k E). lia.
+Qed.
+
+Lemma filter_len_le : forall (f : N -> bool) l, (length (filter f l) <= length l)%nat.
+Proof. induction l; cbn; [lia|]. destruct (f a); cbn; lia. Qed.
+
+Lemma next_index_free : forall inds, ~ In (next_index inds) inds.
+Proof.
+  intros inds H. unfold next_index in H. destruct inds as [|a r] eqn:E; [destruct H|]. rewrite <- E in *.
+  apply memn_In in H. rewrite gap_from_free in H; [discriminate|].
+  pose proof (filter_len_le (fun x => N.leb (minl inds) x) inds). lia.
+Qed.
+
+Lemma number_name_not_special : forall stem ext k, let f := number_name stem ext k in
+  str_eqb f [] = false /\ str_eqb f dot = false /\ str_eqb f dotdot = false.
+Proof.
+  intros. assert (Hin : In SP f). { unfold f, number_name. apply in_or_app. right. left. reflexivity. }
+  repeat split; apply str_eqb_neq; intros E; rewrite E in Hin; cbn in Hin; intuition discriminate.
+Qed.
+
+Lemma chain_from_app : forall fs remote a b p f,
+  chain_from fs remote (a ++ b) p f = match chain_from fs remote a p f with Some (p', f') => chain_from fs remote b p' f' | None => None end.
+Proof.
+  induction a; intros b p f; cbn [app chain_from]; [reflexivity|].
+  destruct (apply_strat fs remote a p f) as [[p1 f1]|]; [apply IHa|reflexivity].
+Qed.
+
+Lemma numdup_fresh : forall fs remote p1 f1 p f, apply_strat fs remote NumDup p1 f1 = Some (p, f) -> pexists fs (p ++ [f]) = false.
+Proof.
+  intros fs remote p1 f1 p f H. unfold apply_strat in H. destruct (pexists fs (p1 ++ [f1])) eqn:Ex.
+  2:{ inv H. assumption. }
+  destruct (splitext f1) as [stem ext]. unfold listdir in H.
+  destruct (resolve fs [] p1) as [q|] eqn:Er; [|discriminate]. destruct (lookup fs q) as [[|]|] eqn:El; try discriminate.
+  inv H. set (k := next_index (indices stem ext (children fs q))).
+  unfold pexists. rewrite resolve_snoc, Er. cbn [resolve]. rewrite El.
+  destruct (number_name_not_special stem ext k) as (E1 & E2 & E3). cbn zeta in *. rewrite E1, E2, E3. cbn [orb].
+  destruct (lookup fs (q ++ [number_name stem ext k])) eqn:L; [|reflexivity]. exfalso.
+  apply lookup_children in L. apply (next_index_free (indices stem ext (children fs q))). fold k.
+  eapply indices_In; [exact L|apply match_index_number_name].
+Qed.
+
+Lemma fresh : forall ch fs remote dl p f, chain fs remote (ch ++ [NumDup]) dl = Some (p, f) -> pexists fs (p ++ [f]) = false.
+Proof.
+  intros ch fs remote dl p f H. unfold chain in H. rewrite chain_from_app in H.
+  destruct (chain_from fs remote ch dl []) as [[p1 f1]|]; [|discriminate]. cbn [chain_from] in H.
+  destruct (apply_strat fs remote NumDup p1 f1) as [[p2 f2]|] eqn:E; [|discriminate]. inv H. eapply numdup_fresh. eassumption.
+Qed.
+
+(* chains that do not end with NumDup cannot promise freshness *)
+Lemma fresh_needs_numdup : exists fs remote dl p f, chain fs remote [Default] dl = Some (p, f) /\ pexists fs (p ++ [f]) = true.
+Proof. exists (FS0 ++ [(DL0 ++ [[97]], KFile)]), [97], DL0, DL0, [97]. split; vm_compute; reflexivity. Qed.
+
+(* a path chosen by a chain ending in NumberDuplicate differs from every path whose file already exists *)
+Lemma distinct_from_created : forall ch fs remote dl p f p' f',
+  chain fs remote (ch ++ [NumDup]) dl = Some (p, f) -> pexists fs (p' ++ [f']) = true -> p ++ [f] <> p' ++ [f'].
+Proof. intros ch fs remote dl p f p' f' H Hex E. apply fresh in H. rewrite E in H. congruence. Qed.
